@@ -41,6 +41,7 @@ static DocPlan make_doc_plan(const RunSpec &spec, const char *stream, int force_
     p.cfg.frames = r.chance(2, 3); p.cfg.magic11 = r.chance(1, 2);
     p.cfg.vals.max_depth = (int) r.range(0, 3); p.cfg.vals.max_members = (int) r.range(1, 5); p.cfg.vals.allow_long = r.chance(1, 5);
     p.cfg.vals.allow_composite = p.cfg.version >= 2;
+    { Rng lr(hmix(run_seed_of(spec), hstr("long_tokens"))); p.cfg.long_tokens = lr.chance(1, 5); }   // names and codes at the length limits (own stream: older plans keep their shape)
     p.doc = gen_doc(r, p.cfg);
     if (r.chance(1, 60) && !p.doc.blocks.empty()) {
         // one token larger than the shipped scan buffer (131200 units): a multi-line value of 140k-260k units
